@@ -586,10 +586,19 @@ class ChangePoint(CovarianceFunction):
 
         for i in range(self.n_kernels - 1):
             w = w_vals[i]
+            # kernels between two change-points are also weighted by the neighbouring
+            # change-point, which is a constant factor in the derivative w.r.t. this one
+            lwr = w_vals[i - 1][:, None] * w_vals[i - 1][None, :] if i > 0 else 1.0
+            if i + 1 < self.n_kernels - 1:
+                upr = (1 - w_vals[i + 1])[:, None] * (1 - w_vals[i + 1])[None, :]
+            else:
+                upr = 1.0
             for dw in w_grads[i]:
                 A = -dw[:, None] * (1 - w)[None, :]
                 B = dw[:, None] * w[None, :]
-                gradients.append(K_vals[i] * (A + A.T) + K_vals[i + 1] * (B + B.T))
+                gradients.append(
+                    K_vals[i] * (A + A.T) * lwr + K_vals[i + 1] * (B + B.T) * upr
+                )
         return covar, gradients
 
     @staticmethod
